@@ -384,8 +384,16 @@ def wl_random(ctx, rng, i):
                 aimed += [[("type", "!=", stem_t)], [("id", "!=", stem_i)], [("type", "=", stem_t)], [("type", "in", [stem_t, "identity"])], [("id", "=", stem_i)]]
         if any(j.get("name", "").endswith("Z") and not j["name"].isascii() for j in model.items if isinstance(j.get("name"), str)):
             aimed += [[("name", "=", "2020-01-01T00:00:00Z")], [("name", "!=", "2020-01-01T00:00:00Z")], [("name", "in", ["2020-01-01T00:00:00Z", "2020-01-01T00:00:00.000Z"])]]
+        # a timestamp property asked about with 'in' and datetime objects among the listed values (naive = UTC, or with an offset):
+        # the same instants as the text
+        ts_items = [j for j in model.items if isinstance(j.get("created"), str) and tsor.text_us(j["created"]) is not None]
+        for j in rng.sample(ts_items, min(2, len(ts_items))):
+            us = tsor.text_us(j["created"])
+            naive = dt.datetime(1, 1, 1) + dt.timedelta(microseconds=us)
+            aimed.append([("created", "in", [rng.choice([naive, naive.replace(tzinfo=dt.timezone.utc).astimezone(dt.timezone(dt.timedelta(minutes=-150)))]),
+                                            "1999-01-01T00:00:00Z"])])
         rng.shuffle(aimed)
-        for q in range(12 + min(4, len(aimed))):
+        for q in range(12 + min(5, len(aimed))):
             filters = [gen_filter(rng, model) for _ in range(rng.choice([1, 1, 2, 2, 3]))] if q < 12 else aimed[q - 12]
             try:
                 exp = evaluate(filters, model.items, TS_PROPS)
@@ -514,6 +522,28 @@ def wl_alphabet(ctx, rng, i):
                                 {"store": name, "filter": fdesc(filters[0]), "id": sid, "versions_passing": [v.get("modified") for v in passing]})
             finally:
                 src.filters.remove(lf)
+        # the same filter attached to a composite above the (itself unfiltered) source: it reaches every kind of answer of the member
+        import stix2
+        for name, src in (("FileSystemStore", st["fs"].source), ("MemoryStore", st["mem"].source)):
+            cds = stix2.CompositeDataSource()
+            cds.add_data_source(src)
+            cds.filters.add([to_lib(f) for f in filters])
+            for sid in model.ids():
+                ctx.ev()
+                ctx.count("composite_pushed_lookups")
+                with warnings.catch_warnings():
+                    warnings.simplefilter("ignore")
+                    g = cds.get(sid)
+                    av = cds.all_versions(sid)
+                for ans in ([g] if g is not None else []) + list(av):
+                    if not evaluate(filters, [norm(ans)], TS_PROPS):
+                        ctx.violation("composite-filter-ignored-by-member", "a composite over %s with attached filter %s returned an object that fails it (%s)" % (
+                            name, fdesc(filters[0]), "get" if ans is g else "all_versions"), {"store": name, "filter": fdesc(filters[0]), "answer": norm(ans)})
+                        break
+                passing = evaluate(filters, model.versions(sid), TS_PROPS)
+                if {key(norm(x)) for x in av} != {key(x) for x in passing}:
+                    ctx.violation("composite-filter-ignored-by-member", "a composite over %s with attached filter %s: all_versions(%s) gave %d versions, %d pass the filter" % (
+                        name, fdesc(filters[0]), sid, len(av), len(passing)), {"store": name, "filter": fdesc(filters[0]), "id": sid})
 
 
 def alphabet_size(tier):
